@@ -136,6 +136,48 @@ pub fn main(tier: Tier) -> i32 {
             samples.push(json!({"part": "per-value", "written": show(w), "stored_hex": hex::encode(stored)}));
         }
     }
+    // versions outside the byte alphabet (negative, extreme, off by one), with genuine, foreign
+    // and made-up bytes: nothing but the record itself may be accepted
+    {
+        let specials: [i64; 7] = [-1, -2, i64::MIN, i64::MAX, 0, 1, 256];
+        let every = tier.pick(5, 1);
+        for (i, (w, stored)) in written.iter().enumerate() {
+            if i % every != 0 {
+                continue;
+            }
+            let other = &written[(i + 7) % written.len()].1;
+            let candidates: Vec<(&str, Vec<u8>)> = vec![("own-bytes", stored.clone()), ("bytes-of-another-record", other.clone()), ("made-up-bytes", vec![0x42; 40]), ("empty", vec![]), ("32-zero-bytes", vec![0; 32])];
+            for sv in specials.iter().cloned().chain([w.1.wrapping_add(1), w.1.wrapping_sub(1)]) {
+                for (name, bytes) in &candidates {
+                    if sv == w.1 && *name == "own-bytes" {
+                        continue;
+                    }
+                    evaluations += 1;
+                    let mut lv = LssValue { version: sv, value: bytes.clone() };
+                    let ok = crate::ev::catch(|| lss::process_value_from_get(&secret, &key_str(&w.0), &mut lv).is_ok()).unwrap_or(false);
+                    // the bytes of a record the signer did write for this very key and version are
+                    // of course accepted
+                    let legit = written.iter().any(|(w2, st2)| w2.0 == w.0 && w2.1 == sv && st2 == bytes);
+                    if ok && !legit {
+                        nontrivial += 1;
+                        let vname = match sv {
+                            -1 => "-1".to_string(),
+                            i64::MIN => "min".to_string(),
+                            i64::MAX => "max".to_string(),
+                            x if x == w.1.wrapping_add(1) => "written+1".to_string(),
+                            x if x == w.1.wrapping_sub(1) => "written-1".to_string(),
+                            x => x.to_string(),
+                        };
+                        run.violation(
+                            &format!("C17:per-value:accepted-at-version:{}:{}", vname, name),
+                            &format!("{} presented for key {} at version {} are accepted although the signer wrote {}", name, hex::encode(&w.0), sv, show(w)),
+                            json!({"written": show(w), "presented_version": sv, "presented_hex": hex::encode(bytes)}),
+                        );
+                    }
+                }
+            }
+        }
+    }
     // structural edits of the stored bytes under the right key and version
     let edit_every = tier.pick(7, 1);
     for (i, (w, stored)) in written.iter().enumerate() {
